@@ -963,9 +963,146 @@ impl Prop for Dispatch {
     }
 }
 
+
+// ---------------------------------------------------------------------------------------------
+// types with the same name in different modules
+
+#[derive(Clone, Debug, Serialize, Deserialize)]
+pub enum NOp {
+    Show(u8, i64),
+    Same(u8, i64, i64),
+    ArrShow(u8, Vec<i64>),
+    TupShow(u8, u8, i64, i64),
+    Direct(u8, i64),
+}
+
+#[derive(Clone, Debug, Serialize, Deserialize)]
+pub struct SameNameCase {
+    /// number of modules (2 or 3), each declaring its own `type Item`
+    pub mods: u8,
+    pub ops: Vec<NOp>,
+}
+
+fn same_name_module(i: usize) -> String {
+    // module 1 declares an enum, the others structs with different fields
+    let (decl, mk, render, eq) = match i {
+        1 => ("type Item =\n  | Aa(int)\n  | Bb\n".to_string(), "if n >= 0 { Item.Aa(n) } else { Item.Bb }".to_string(), "match x {\n      .Aa(k) -> \"m1.Item.Aa(\" .. k .. \")\"\n      .Bb -> \"m1.Item.Bb\"\n    }".to_string(), "a.str() == b.str()".to_string()),
+        2 => ("type Item = {\n  v: int\n  w: int\n}\n".to_string(), "Item(n, n + 1)".to_string(), "\"m2.Item(\" .. x.v .. \",\" .. x.w .. \")\"".to_string(), "a.v == b.v".to_string()),
+        _ => ("type Item = {\n  v: int\n}\n".to_string(), "Item(n)".to_string(), "\"m0.Item(\" .. x.v .. \")\"".to_string(), "a.v == b.v".to_string()),
+    };
+    format!("{decl}\nimplement ToString for Item {{\n  fn str(x) -> string {{\n    {render}\n  }}\n}}\n\nimplement Equal for Item {{\n  fn equal(a, b) {{\n    println(\"m{i}.eq\")\n    {eq}\n  }}\n}}\n\nfn mk{i}(n: int) -> Item {{\n  {mk}\n}}\n")
+}
+
+fn same_name_render(i: usize, n: i64) -> String {
+    match i {
+        1 => if n >= 0 { format!("m1.Item.Aa({n})") } else { "m1.Item.Bb".into() },
+        2 => format!("m2.Item({n},{})", n + 1),
+        _ => format!("m0.Item({n})"),
+    }
+}
+
+pub struct SameName;
+
+impl Prop for SameName {
+    type Case = SameNameCase;
+    fn name(&self) -> &'static str {
+        "same_name_types"
+    }
+    fn rule(&self) -> &'static str {
+        "one case = 2..3 modules that each declare their own `type Item` (a struct, an enum, a two-field struct) with their own ToString and Equal implementations (Equal prints a module tag) and a constructor function; main imports only the constructors and passes the values to generic functions (show, same), prints arrays and tuples of them, and prints them directly; the output must be what a model of each module's implementations prints (the implementation is chosen by the type's identity, not by its name); non-trivial = values of >= 2 modules are used; distinct by case"
+    }
+    fn n_cases(&self, tier: Tier) -> u32 {
+        tier.pick(600, 8000)
+    }
+    fn strategy(&self, _tier: Tier, _f: &Findings) -> BoxedStrategy<Self::Case> {
+        let n = -3i64..20;
+        let op = prop_oneof![
+            3 => (0u8..3, n.clone()).prop_map(|(m, a)| NOp::Show(m, a)),
+            3 => (0u8..3, n.clone(), n.clone()).prop_map(|(m, a, b)| NOp::Same(m, a, b)),
+            1 => (0u8..3, n.clone()).prop_map(|(m, a)| NOp::Same(m, a, a)),
+            2 => (0u8..3, proptest::collection::vec(n.clone(), 1..4)).prop_map(|(m, v)| NOp::ArrShow(m, v)),
+            2 => (0u8..3, 0u8..3, n.clone(), n.clone()).prop_map(|(a, b, x, y)| NOp::TupShow(a, b, x, y)),
+            2 => (0u8..3, n.clone()).prop_map(|(m, a)| NOp::Direct(m, a)),
+        ];
+        (2u8..4, proptest::collection::vec(op, 2..14)).prop_map(|(mods, ops)| SameNameCase { mods, ops }).boxed()
+    }
+    fn judge(&self, c: &Self::Case, env: &mut Env) -> Verdict {
+        let k = (c.mods as usize).clamp(2, 3);
+        let mut files = vec![];
+        let mut main = String::new();
+        for i in 0..k {
+            files.push(SrcFile { path: format!("m{i}.abra"), text: same_name_module(i) });
+            main.push_str(&format!("use m{i}.mk{i}\n"));
+        }
+        main.push_str("\nfn show(x: T ToString) -> string {\n  \"<\" .. x .. \">\"\n}\n\nfn same(a: T Equal, b: T) -> bool {\n  a == b\n}\n\n");
+        let mut exp = String::new();
+        let mut used = std::collections::BTreeSet::new();
+        let lit = |n: i64| if n < 0 { format!("({n})") } else { n.to_string() };
+        let eqv = |m: usize, a: i64, b: i64| match m {
+            1 => same_name_render(1, a) == same_name_render(1, b),
+            _ => a == b,
+        };
+        for op in &c.ops {
+            match op {
+                NOp::Show(m, a) => {
+                    let m = *m as usize % k;
+                    used.insert(m);
+                    main.push_str(&format!("println(show(mk{m}({})))\n", lit(*a)));
+                    exp.push_str(&format!("<{}>\n", same_name_render(m, *a)));
+                }
+                NOp::Same(m, a, b) => {
+                    let m = *m as usize % k;
+                    used.insert(m);
+                    main.push_str(&format!("println(same(mk{m}({}), mk{m}({})))\n", lit(*a), lit(*b)));
+                    exp.push_str(&format!("m{m}.eq\n{}\n", eqv(m, *a, *b)));
+                }
+                NOp::ArrShow(m, v) => {
+                    let m = *m as usize % k;
+                    used.insert(m);
+                    main.push_str(&format!("println([{}])\n", v.iter().map(|n| format!("mk{m}({})", lit(*n))).collect::<Vec<_>>().join(", ")));
+                    exp.push_str(&format!("[ {} ]\n", v.iter().map(|n| same_name_render(m, *n)).collect::<Vec<_>>().join(", ")));
+                }
+                NOp::TupShow(a, b, x, y) => {
+                    let (a, b) = (*a as usize % k, *b as usize % k);
+                    used.insert(a);
+                    used.insert(b);
+                    main.push_str(&format!("println(show((mk{a}({}), mk{b}({}))))\n", lit(*x), lit(*y)));
+                    exp.push_str(&format!("<({}, {})>\n", same_name_render(a, *x), same_name_render(b, *y)));
+                }
+                NOp::Direct(m, a) => {
+                    let m = *m as usize % k;
+                    used.insert(m);
+                    main.push_str(&format!("println(mk{m}({}))\n", lit(*a)));
+                    exp.push_str(&format!("{}\n", same_name_render(m, *a)));
+                }
+            }
+        }
+        files.insert(0, SrcFile { path: "main.abra".into(), text: main });
+        let r = try_exec!(env.run(&files, "main.abra", &RunOpts::default()));
+        let mut st = CaseStats::one();
+        if let Some(f) = crash_failure(&r) {
+            return Verdict::Fail(f.detail(json!({"files": files})));
+        }
+        if let FrontVerdict::Diag(d) = &r.compile {
+            return Verdict::Fail(Failure::new("VerdictMismatch", format!("same-name program rejected: {}", norm_msg(d.lines().find(|l| !l.trim().is_empty()).unwrap_or("")))).detail(json!({"files": files, "diag": d})));
+        }
+        if !matches!(r.end, RunEnd::Done) || r.stdout != exp {
+            let (x, y): (Vec<&str>, Vec<&str>) = (exp.lines().collect(), r.stdout.lines().collect());
+            let i = x.iter().zip(y.iter()).position(|(p, q)| p != q).unwrap_or(x.len().min(y.len()));
+            return Verdict::Fail(Failure::new("ModelMismatch", format!("same-name types: line {i} expected {:?} got {:?} (end {})", x.get(i), y.get(i), format!("{:?}", r.end).chars().take(60).collect::<String>())).detail(json!({"files": files, "expected": exp, "got": r.stdout})));
+        }
+        if used.len() >= 2 {
+            st.nt(&(c.mods, format!("{:?}", c.ops)));
+            st.sample = Some(json!({"main": files[0].text, "output": r.stdout}));
+        }
+        Verdict::Pass(st)
+    }
+}
+
 pub fn run(ctx: &mut Ctx) {
     ctx.assume("the model implements the user impls written in the program and the prelude's derived Equal / Ord / Hash / Clone for arrays and tuples as their source defines them (evaluation order included)");
     ctx.assume("generic iteration (`for` over a `T Iterable` parameter) and method syntax on a constrained type variable are rejected by the checker and therefore not generated; sort is covered by C25");
     ctx.prop(&crate::g::srccase::SrcProp { name: "program" });
     ctx.prop(&Dispatch);
+    ctx.prop(&SameName);
 }
